@@ -1,6 +1,7 @@
 package main
 
 import (
+	"go.sia.tech/core/consensus"
 	"bytes"
 	"encoding/json"
 	"fmt"
@@ -316,6 +317,7 @@ func runC11(r *Run) {
 	for i := 0; i < r.pick(30, 800); i++ {
 		c18Synthetic(r) // V2TransactionsMultiproof needs proofs valid for one state: generated here, round trip + model
 	}
+	c11StateLayout(r)
 	rec := recodable()
 	nper := r.pick(60, 2500)
 	nrec := 0
@@ -446,6 +448,49 @@ func runC10(r *Run) {
 				}
 				r.emit(derr == nil, "hostile-decode", "c11.decode", []string{hb([]byte(tt.name)), hb(b)}, []string{want})
 			}
+		}
+	}
+}
+
+
+// consensus.State has an irregular layout (only the timestamps in use are written; one accumulator root per set
+// bit of the leaf count): its encoded length is recomputed by the model for the pre-genesis state, the first
+// heights and random leaf counts, and it must round-trip
+func c11StateLayout(r *Run) {
+	heights := []uint64{^uint64(0), 0, 1, 2, 5, 9, 10, 11, 12, 1000, 1 << 40}
+	for it := 0; it < r.pick(60, 2000); it++ {
+		var s consensus.State
+		r.fill(reflect.ValueOf(&s).Elem(), 0)
+		s.Index.Height = heights[it%len(heights)]
+		s.Network = nil
+		nl := r.rng.Uint64() >> uint(r.rng.IntN(64))
+		if it%7 == 0 {
+			nl = 0
+		}
+		s.Elements.NumLeaves = nl
+		for i := range s.Elements.Trees {
+			if nl&(1<<uint(i)) == 0 {
+				s.Elements.Trees[i] = types.Hash256{}
+			}
+		}
+		b := encAny(s)
+		r.emit(true, "state-layout", "c11.state_len", []string{hx(s.Index.Height), hx(nl)}, []string{hx(uint64(len(b)))})
+		var s2 consensus.State
+		d := types.NewBufDecoder(b)
+		s2.DecodeFrom(d)
+		r.count("oracle-state-roundtrip")
+		if d.Err() != nil || !bytes.Equal(encAny(s2), b) {
+			r.violate("c11.state-roundtrip", "State at height %d with %d leaves does not round-trip: %v", s.Index.Height, nl, d.Err())
+		}
+		// slots beyond the timestamps in use must not influence the bytes
+		s3 := s
+		for i := range s3.PrevTimestamps {
+			if uint64(i) >= s.Index.Height+1 {
+				s3.PrevTimestamps[i] = s3.PrevTimestamps[i].Add(time.Hour)
+			}
+		}
+		if !bytes.Equal(encAny(s3), b) {
+			r.violate("c11.state-unused-slots", "State at height %d: timestamp slots not in use influence the encoding", s.Index.Height)
 		}
 	}
 }
